@@ -275,10 +275,12 @@ Definition adv_unchecked (count : N) (x : handle) : M handle :=
       if count =? 0 then mret x
       else mcheck (count <=? cap) "advance_unchecked beyond the capacity (debug_assert)";;
            match kd with
-           | MVec o => mcheck (ofs + count <=? MAX_VEC_POS) "vec position overflow (32-bit only)"
-           | MArc => mret tt
-           end;;
-           mret (HM k (ofs + count) (len - count) (cap - count) kd)
+           | MVec o =>
+               if ofs + count <=? MAX_VEC_POS then mret (HM k (ofs + count) (len - count) (cap - count) kd)
+               else (* promote_to_shared(1): "will never happen on 64 bit systems" - modelled all the same *)
+                 upd_st k (with_ctrl (CSharedV (cap + ofs) o 1));; emit EAllocCtrl;; mret (HM k (ofs + count) (len - count) (cap - count) MArc)
+           | MArc => mret (HM k (ofs + count) (len - count) (cap - count) kd)
+           end
   | _ => mub "stuck: not a BytesMut"
   end.
 (* shared_to_mut_impl *)
@@ -628,8 +630,9 @@ Definition hstep (orc : oracle) (o : op) : M retv :=
   | OMExtend h d => let! x := get_h h in let! x1 := m_extend orc d x in put_h h x1;; mret RUnit
   | OMExtendIter h d hint =>
       (* Extend<u8>: self.reserve(lower); for b in iter { self.put_u8(b) } *)
-      let! x := get_h h in let! x0 := m_reserve orc hint x in
-      let! x1 := fold_left (fun (acc : M handle) b => let! y := acc in m_extend orc [b] y) d (mret x0) in put_h h x1;; mret RUnit
+      (* `self` is updated in place by every call, so the handle is stored back after each step (matters only when a later step panics) *)
+      let! x := get_h h in let! x0 := m_reserve orc hint x in put_h h x0;;
+      fold_left (fun (acc : M unit) b => acc;; let! y := get_h h in let! y1 := m_extend orc [b] y in put_h h y1) d (mret tt);; mret RUnit
   | OMWrite h i v =>
       let! x := get_h h in let! (k, ofs, len, cap, kd) := m_parts x in
       massert (i <? len);; mwrite k (ofs + i) [v];; mret RUnit
